@@ -53,6 +53,7 @@ func (f FileSpec) driver(pkgName, caseDir string) string {
 	w(`	"time"`)
 	w(`	"storj.io/drpc"`)
 	w(`	"storj.io/drpc/drpcconn"`)
+	w(`	"storj.io/drpc/drpcerr"`)
 	w(`	"storj.io/drpc/drpcmux"`)
 	w(`	"storj.io/drpc/drpcserver"`)
 	if usesOther {
@@ -65,6 +66,14 @@ func (f FileSpec) driver(pkgName, caseDir string) string {
 	w("var _ = errors.New")
 	w("var _ = io.EOF")
 	w("var _ = bytes.Equal")
+	w("var _ = drpcerr.Code")
+	ep := f.ErrPath
+	failErr := "errors.New(\"unused\")"
+	if ep != nil {
+		failErr = fmt.Sprintf("drpcerr.WithCode(errors.New(%q), %d)", string(ep.Msg), ep.Code)
+	}
+	w("func failure() error { return %s }", failErr)
+	w("func wantsFailure(b []byte) bool { return bytes.HasPrefix(b, []byte(\"fail\")) }")
 	// a recording connection: which RPC names does the client stub use?
 	w("type recConn struct { drpc.Conn; rpcs []string }")
 	w("func (r *recConn) Invoke(ctx context.Context, rpc string, enc drpc.Encoding, in, out drpc.Message) error { r.rpcs = append(r.rpcs, rpc); return r.Conn.Invoke(ctx, rpc, enc, in, out) }")
@@ -79,10 +88,19 @@ func (f FileSpec) driver(pkgName, caseDir string) string {
 			switch {
 			case !m.CS && !m.SS:
 				w("func (impl%d) %s(ctx context.Context, in *%s) (*%s, error) {", si, mg, goType(m.In), goType(m.Out))
+				w("	if wantsFailure(%s) { return nil, failure() }", get(m.In, "in"))
 				w("	return %s, nil", mk(m.Out, `append([]byte("`+tag+`"), `+get(m.In, "in")+`...)`))
 				w("}")
 			case !m.CS && m.SS:
 				w("func (impl%d) %s(in *%s, stream %s) error {", si, mg, goType(m.In), streamT)
+				if ep != nil {
+					w("	if wantsFailure(%s) {", get(m.In, "in"))
+					w("		for i := 0; i < %d; i++ {", ep.After)
+					w("			if err := stream.Send(%s); err != nil { return err }", mk(m.Out, `[]byte("before-failure")`))
+					w("		}")
+					w("		return failure()")
+					w("	}")
+				}
 				w("	for i := 0; i < 2; i++ {")
 				w("		if err := stream.Send(%s); err != nil { return err }", mk(m.Out, `append([]byte("`+tag+`"), `+get(m.In, "in")+`...)`))
 				w("	}")
@@ -97,6 +115,7 @@ func (f FileSpec) driver(pkgName, caseDir string) string {
 				w("		if err != nil { return err }")
 				w("		all = append(all, %s...)", get(m.In, "in"))
 				w("	}")
+				w("	if wantsFailure(all) { return failure() }")
 				w("	return stream.SendAndClose(%s)", mk(m.Out, `append([]byte("`+tag+`"), all...)`))
 				w("}")
 			default:
@@ -105,6 +124,7 @@ func (f FileSpec) driver(pkgName, caseDir string) string {
 				w("		in, err := stream.Recv()")
 				w("		if errors.Is(err, io.EOF) { return nil }")
 				w("		if err != nil { return err }")
+				w("		if wantsFailure(%s) { return failure() }", get(m.In, "in"))
 				w("		if err := stream.Send(%s); err != nil { return err }", mk(m.Out, `append([]byte("`+tag+`"), `+get(m.In, "in")+`...)`))
 				w("	}")
 				w("}")
@@ -142,6 +162,70 @@ func (f FileSpec) driver(pkgName, caseDir string) string {
 	w("	callCtx := func() context.Context { c, cancel := context.WithTimeout(ctx, 15*time.Second); _ = cancel; return c }")
 	w("	_ = callCtx")
 	w("	defer conn.Close()")
+	if ep != nil {
+		// C10 through the generated stubs: every method is failed by its handler first (the calls of the round trip
+		// below then show that the connection is still usable)
+		w("	checkFailure := func(what string, err error) {")
+		w("		t.Helper()")
+		w("		if err == nil { t.Fatalf(\"C10: %%s: the handler failed but the generated client reports no error\", what) }")
+		w("		if err.Error() != %q || drpcerr.Code(err) != %d { t.Fatalf(\"C10: %%s: the generated client reports error %%q code %%d, the handler returned %%q code %%d\", what, err.Error(), drpcerr.Code(err), %q, uint64(%d)) }", string(ep.Msg), ep.Code, string(ep.Msg), ep.Code)
+		w("	}")
+		for _, s := range f.Services {
+			g := GoCamelCase(s.Name)
+			w("	{")
+			w("		cli := NewDRPC%sClient(conn)", g)
+			w("		_ = cli")
+			for _, m := range s.Methods {
+				mg := GoCamelCase(m.Name)
+				what := g + "." + mg
+				switch {
+				case !m.CS && !m.SS:
+					w("		{")
+					w("			out, err := cli.%s(callCtx(), %s)", mg, mk(m.In, `[]byte("fail")`))
+					w("			if out != nil && err != nil { t.Fatalf(\"C10: %s: both a response and an error\") }", what)
+					w("			checkFailure(%q, err)", what)
+					w("		}")
+				case !m.CS && m.SS:
+					w("		{")
+					w("			st, err := cli.%s(callCtx(), %s)", mg, mk(m.In, `[]byte("fail")`))
+					w("			if err == nil {")
+					w("				for i := 0; i < %d; i++ {", ep.After)
+					w("					out, err := st.Recv()")
+					w("					if err != nil || !bytes.Equal(%s, []byte(\"before-failure\")) { t.Fatalf(\"C10: %s: response %%d sent before the failure not received first: %%v\", i, err) }", get(m.Out, "out"), what)
+					w("				}")
+					w("				_, err = st.Recv()")
+					w("				_ = st.Close()")
+					w("			}")
+					w("			checkFailure(%q, err)", what)
+					w("		}")
+				case m.CS && !m.SS:
+					w("		{")
+					w("			st, err := cli.%s(ctx)", mg)
+					w("			if err != nil { t.Fatalf(\"C10: %s: %%v\", err) }", what)
+					w("			for _, p := range []string{\"fail\", \"ure\"} { if err := st.Send(%s); err != nil { t.Fatalf(\"C10: %s send %%v\", err) } }", mk(m.In, "[]byte(p)"), what)
+					w("			_, err = st.CloseAndRecv()")
+					w("			_ = st.Close()")
+					w("			checkFailure(%q, err)", what)
+					w("		}")
+				default:
+					w("		{")
+					w("			st, err := cli.%s(ctx)", mg)
+					w("			if err != nil { t.Fatalf(\"C10: %s: %%v\", err) }", what)
+					w("			for i := 0; i < %d; i++ {", ep.After)
+					w("				if err := st.Send(%s); err != nil { t.Fatalf(\"C10: %s send %%v\", err) }", mk(m.In, `[]byte("ok")`), what)
+					w("				out, err := st.Recv()")
+					w("				if err != nil || len(%s) == 0 { t.Fatalf(\"C10: %s: echo %%d before the failure: %%v\", i, err) }", get(m.Out, "out"), what)
+					w("			}")
+					w("			if err := st.Send(%s); err != nil { t.Fatalf(\"C10: %s send %%v\", err) }", mk(m.In, `[]byte("fail")`), what)
+					w("			_, err = st.Recv()")
+					w("			_ = st.Close()")
+					w("			checkFailure(%q, err)", what)
+					w("		}")
+				}
+			}
+			w("	}")
+		}
+	}
 	for si, s := range f.Services {
 		g := GoCamelCase(s.Name)
 		w("	{")
@@ -210,6 +294,69 @@ func (f FileSpec) driver(pkgName, caseDir string) string {
 				w("		}")
 			}
 			w("		if len(conn.rpcs) != 1 || conn.rpcs[0] != %q { t.Fatalf(\"client stub used rpc names %%q, want %%q\", conn.rpcs, %q) }", want, want)
+		}
+		w("	}")
+	}
+	if ep != nil {
+		// a server that does not know the service (version skew): the dispatcher fails every call as soon as it has
+		// the invoke, possibly while the client is still writing a long request. Whatever the shape, the caller of the
+		// generated client must get to see that error.
+		w("	{")
+		w("		d1, d2 := net.Pipe()")
+		w("		go drpcserver.New(drpcmux.New()).ServeOne(ctx, d2)")
+		w("		conn2 := drpcconn.New(d1)")
+		w("		defer conn2.Close()")
+		w("		big := bytes.Repeat([]byte{'b'}, %d)", ep.Big)
+		w("		checkUnknown := func(what, rpc string, err error) {")
+		w("			t.Helper()")
+		w("			want := drpcmux.New().HandleRPC(nil, rpc)")
+		w("			if err == nil { t.Fatalf(\"C10: %%s on a server without the service: no error\", what) }")
+		w("			if err.Error() != want.Error() || drpcerr.Code(err) != drpcerr.Code(want) { t.Fatalf(\"C10: %%s on a server without the service (request of %%d bytes): the generated client reports %%q code %%d, the dispatcher failed the call with %%q\", what, len(big), err.Error(), drpcerr.Code(err), want.Error()) }")
+		w("		}")
+		for round := 0; round < 2; round++ {
+			for _, s := range f.Services {
+				g := GoCamelCase(s.Name)
+				w("		{")
+				w("			cli := NewDRPC%sClient(conn2)", g)
+				w("			_ = cli")
+				for _, m := range s.Methods {
+					mg := GoCamelCase(m.Name)
+					what := g + "." + mg
+					rpc := "/" + f.Package + "." + s.Name + "/" + m.Name
+					switch {
+					case !m.CS && !m.SS:
+						w("			{")
+						w("				_, err := cli.%s(callCtx(), %s)", mg, mk(m.In, "big"))
+						w("				checkUnknown(%q, %q, err)", what, rpc)
+						w("			}")
+					case !m.CS && m.SS:
+						w("			{")
+						w("				st, err := cli.%s(callCtx(), %s)", mg, mk(m.In, "big"))
+						w("				if err == nil { _, err = st.Recv(); _ = st.Close() }")
+						w("				checkUnknown(%q, %q, err)", what, rpc)
+						w("			}")
+					case m.CS && !m.SS:
+						w("			{")
+						w("				st, err := cli.%s(callCtx())", mg)
+						w("				if err != nil { t.Fatalf(\"C10: %s: %%v\", err) }", what)
+						w("				_ = st.Send(%s) // may report io.EOF: the reason is what the receive reports", mk(m.In, "big"))
+						w("				_, err = st.CloseAndRecv()")
+						w("				_ = st.Close()")
+						w("				checkUnknown(%q, %q, err)", what, rpc)
+						w("			}")
+					default:
+						w("			{")
+						w("				st, err := cli.%s(callCtx())", mg)
+						w("				if err != nil { t.Fatalf(\"C10: %s: %%v\", err) }", what)
+						w("				_ = st.Send(%s)", mk(m.In, "big"))
+						w("				_, err = st.Recv()")
+						w("				_ = st.Close()")
+						w("				checkUnknown(%q, %q, err)", what, rpc)
+						w("			}")
+					}
+				}
+				w("		}")
+			}
 		}
 		w("	}")
 	}
